@@ -1,6 +1,7 @@
 package main
 
 import (
+	"go/ast"
 	"fmt"
 	"go/token"
 	"go/types"
@@ -590,6 +591,28 @@ func ruleOW(c *Ctx) {
 			}
 		}
 	}
+	// functions that can run: exported ones, the pinned ones, and whatever they call (a helper left without callers,
+	// e.g. after the helper-extraction neutraliser inlined its calls, is dead code)
+	live := map[string]bool{}
+	for _, k := range keys {
+		fn := c.Prog.SFuncs[k]
+		if fn != nil && (pristineFuncs[k] || ast.IsExported(fn.Name()) || strings.HasPrefix(k, "init")) {
+			live[k] = true
+		}
+	}
+	for changed := true; changed; {
+		changed = false
+		for callee, crs := range callers {
+			if live[callee] {
+				continue
+			}
+			for cr := range crs {
+				if live[cr] {
+					live[callee], changed = true, true
+				}
+			}
+		}
+	}
 	var cells []cell
 	for cl := range writers {
 		cells = append(cells, cl)
@@ -608,7 +631,7 @@ func ruleOW(c *Ctx) {
 		}
 		for changed := true; changed; {
 			changed = false
-			for r := range readers[cl] {
+			for r := range callers {
 				if allowed[r] || len(callers[r]) == 0 {
 					continue
 				}
@@ -629,6 +652,9 @@ func ruleOW(c *Ctx) {
 		}
 		sort.Strings(rs)
 		for _, r := range rs {
+			if !live[r] {
+				continue
+			}
 			n++
 			var ws []string
 			for w := range writers[cl] {
